@@ -373,7 +373,7 @@ theorem wait_inv (nc : NC) (h : Inv nc) (num : Int) (ids : List Int) (st : Optio
             (fun e he => ⟨by have := (hG.ids e he).1; omega, hG.ne_null e he⟩)
             num ids st V hsub herr
           exact ⟨_, _, hP.of_sublist List.filter_sublist hw.1 hw.2.2.2.2.2.2.1,
-                 hG.of_sublist List.filter_sublist hw.2.1 hw.2.2.2.2.2.2.2⟩
+                 hG.of_sublist List.filter_sublist hw.2.1 hw.2.2.2.2.2.2.2.1⟩
 
 /-! ### cancel: the pending sets in closed form -/
 
